@@ -180,6 +180,9 @@ func c08Families() []c08Family {
 		c08Family{name: "cbe-long-string-many-chunks", make: func(n int, huge uint64) []byte {
 			return cbeDoc([]byte{0x90}, bytes.Repeat([]byte{0x03, 'a'}, n), []byte{0x02, 'a'})
 		}},
+		c08Family{name: "cbe-large-string-then-many-short", make: func(n int, huge uint64) []byte {
+			return cbeDoc([]byte{0x9a, 0x90}, uleb(uint64(n)<<1), bytes.Repeat([]byte{'a'}, n), bytes.Repeat([]byte{0x81, 'b'}, n/2), []byte{0x9b})
+		}},
 		c08Family{name: "cbe-long-u8-array", make: func(n int, huge uint64) []byte {
 			return cbeDoc([]byte{0x93}, uleb(uint64(n)<<1), bytes.Repeat([]byte{7}, n))
 		}},
@@ -210,6 +213,17 @@ func c08Families() []c08Family {
 			return "@a<\"x\"> " + strings.Repeat(oc[0], n) + "1" + strings.Repeat(oc[1], n)
 		})
 	}
+	// one large array-like value, then many small ones: whatever one value needed must not be paid again
+	// for each of the following (seeded change C08B3: every array started in a new buffer of the old capacity)
+	text("cte-large-string-then-many-empty", func(n int) string {
+		return "[\"" + strings.Repeat("a", n) + "\" " + strings.Repeat("\"\" ", n/4) + "]"
+	})
+	text("cte-large-u8x-then-many-small", func(n int) string {
+		return "[@u8x[" + strings.Repeat("ff ", n/3) + "] " + strings.Repeat("@u8x[01] ", n/10) + "]"
+	})
+	text("cte-large-comment-then-many-strings", func(n int) string {
+		return "[/* " + strings.Repeat("c", n) + " */ " + strings.Repeat("\"b\" ", n/5) + "]"
+	})
 	text("cte-nested-closed", func(n int) string { return strings.Repeat("[", n) + strings.Repeat("]", n) })
 	text("cte-many-ints", func(n int) string { return "[" + strings.Repeat("1 ", n) + "]" })
 	text("cte-many-strings", func(n int) string { return "[" + strings.Repeat("\"a\" ", n) + "]" })
@@ -288,14 +302,16 @@ var c08Modes = []c08Mode{
 	}},
 }
 
-// cpuTime: user+system CPU time of this process so far (wall-clock time would also measure how busy
+// cpuTime: user CPU time of this process so far (wall-clock time would also measure how busy
 // the machine is with other work)
 func cpuTime() time.Duration {
 	var ru syscall.Rusage
 	if err := syscall.Getrusage(syscall.RUSAGE_SELF, &ru); err != nil {
 		return 0
 	}
-	return time.Duration(ru.Utime.Nano() + ru.Stime.Nano())
+	// user time only: system time is page faults and scheduling, which depend on how busy the machine is
+	// (a false report of cte-garbage-lines under load came from 300 MB of fresh pages, not from the parser)
+	return time.Duration(ru.Utime.Nano())
 }
 
 // c08Measure: bytes allocated, CPU time consumed (the harness runs one decode at a time) and outcome
@@ -422,6 +438,11 @@ func runC08(r *Run) {
 			if n > 100000 {
 				n = 100000 // the ANTLR parse is linear but slow (microseconds per token): stay below the watchdog
 			}
+		case "cbe-long-string-many-chunks":
+			// one event pair per chunk: a per-chunk cost that grows with what came before is only measurable
+			// (above the 250 ms floor of the time oracle) with many chunks - seeded change C08A3 re-validated
+			// the whole string at every chunk
+			n *= 8
 		case "cbe-long-string", "cbe-long-u8-array":
 			if rng.P(1, 3) {
 				n = 3 << 20 // an honest array of megabytes: the buffer must still grow geometrically
@@ -472,7 +493,8 @@ func runC08(r *Run) {
 			return
 		}
 		// time: only gross super-linear growth, confirmed by a second measurement of both sizes
-		if t1 >= 250*time.Millisecond && t4 > 12*t1 {
+		steep := func(a, b time.Duration) bool { return a >= 250*time.Millisecond && b > 12*a }
+		if steep(t1, t4) {
 			// confirm without the collector: its work grows with everything the process still holds from
 			// earlier cases (ANTLR's caches), not with this document (GOMEMLIMIT still bounds the heap)
 			runtime.GC()
@@ -484,7 +506,7 @@ func runC08(r *Run) {
 			if p1 == "HANG" || p4 == "HANG" {
 				aborted = true // the decode is still running: nothing measured after this would be meaningful
 			}
-			if u1 >= 250*time.Millisecond && u4 > 12*u1 {
+			if steep(u1, u4) {
 				r.out.Finding("C08", "cost:"+f.name, fmt.Sprintf("decoding CPU time grows much faster than linearly (4 times the document: %v -> %v, again with the collector off %v -> %v): %s",
 					t1.Round(time.Millisecond), t4.Round(time.Millisecond), u1.Round(time.Millisecond), u4.Round(time.Millisecond), desc), replay)
 			}
